@@ -8,9 +8,10 @@ PROPS = {}
 
 
 def prop(pid, level, explanation, driver=None, trusted=(), assumptions=(), rule=None, native_n=None,
-         driver_timeout=None):
+         driver_timeout=None, driver_args=()):
     PROPS[pid] = dict(level=level, explanation=explanation, driver=driver, trusted=list(trusted),
-                      assumptions=list(assumptions), native_n=native_n or {}, driver_timeout=driver_timeout or {})
+                      assumptions=list(assumptions), native_n=native_n or {}, driver_timeout=driver_timeout or {},
+                      driver_args=list(driver_args))
     if rule:
         PROPS[pid]['rule'] = rule
 
@@ -22,3 +23,28 @@ prop('C17', 'other',
      'inputs (CPython cross-check of the encoding), and the Store navigation laws (path_to / path_for / get_path vs '
      'lexical normal form) on real Store trees, which are outside the translated subset.',
      driver='bounded.c17', assumptions=[OWN])
+
+SCHED_RULE = ('seeded random schedules + a systematic family (slow always-on process next to a fast conditional one under '
+              'short caller-managed run_for calls, enumerated completely); non-trivial = >= 2 distinct timesteps or a '
+              'quiet/deferred invocation actually occurred (measured on the trace); distinct by scenario description')
+
+prop('C01', 'exploration',
+     'BOUNDED ONLY so far (the deductive proof of Engine.run_for is under construction): contract monitors on the real '
+     'engine. Every token issued by _process_update is followed through Defer.get: applied exactly once, at '
+     'start+timestep, in order; every amount returned by a user process reaches the (user-registered, logging) updater '
+     'exactly once; accumulating variables at every emitted time equal the sum of the updates whose interval ended.',
+     driver='bounded.sched', driver_args=['--prop', 'C01'], rule=SCHED_RULE, assumptions=[FLOATS])
+prop('C02', 'exploration',
+     'BOUNDED ONLY so far: on the real engine the timestep handed to next_update equals application time minus the '
+     'front time at invocation; a clock-like variable equals the elapsed time after forced completion; fronts are at '
+     'global time with nothing pending after update().',
+     driver='bounded.sched', driver_args=['--prop', 'C02'], rule=SCHED_RULE, assumptions=[FLOATS])
+prop('C03', 'exploration',
+     'BOUNDED ONLY so far: clock monotone on every assignment, never past the end, run_for returns at start+interval, '
+     'watchdog for termination (all-quiet and empty composites included), emit times strictly increasing, and with '
+     'global_time_precision every observable event time on the grid.',
+     driver='bounded.sched', driver_args=['--prop', 'C03'], rule=SCHED_RULE, assumptions=[FLOATS])
+prop('C12', 'exploration',
+     'BOUNDED ONLY so far: one configuration record first, one row after construction and after every batch+steps, '
+     'rows equal to the projection of the hierarchy on the emit flags.',
+     driver='bounded.sched', driver_args=['--prop', 'C12'], rule=SCHED_RULE)
